@@ -487,6 +487,10 @@ Section Engine.
     end.
 End Engine.
 
+(* engine.go bindRoute :88-107: chn := ng.chain (api.WithChain) or, when nil, the default chain; in BOTH cases
+   appendAuthHandler appends the group's JWT / signature gate to it. custom_chain is therefore not looked at. *)
+Definition bind_route {A} (custom_chain : bool) (auth_gate : A) : A := auth_gate.
+
 (* api/router/patrouter.go ServeHTTP :42-66: one search tree per method, looked up with r.Method exactly
    (HEAD is not served by GET's tree); a path that exists under other methods only is answered 405 by the
    router itself, no route chain is entered. registered = the methods the group's route was added with. *)
@@ -564,3 +568,12 @@ Definition breaker_failures (codes : list Z) : nat :=
 Definition server_config_gate (auth strict_control : bool) (cache : list (N * N)) (store : N -> store_res) (md : rpc_md)
   : list (N * N) * Z :=
   if auth then authenticate strict_control cache store md else (cache, rpc_ok).
+
+(* rpc/proxy.go TakeConn :31-62 + auth/credential.go: the proxy reads the caller's credentials with ParseCredential
+   (first app / token values, both non-empty, else the empty credential), keys its backend connections by
+   app + "/" + token, and the connection sends exactly that credential with every call *)
+Definition proxy_md (md : rpc_md) : rpc_md :=
+  match md with
+  | Some (app :: _, token :: _) => if (app =? 0)%N || (token =? 0)%N then Some ([0%N], [0%N]) else Some ([app], [token])
+  | _ => Some ([0%N], [0%N])
+  end.
